@@ -153,10 +153,14 @@ CHECKS = {
     ),
     "C19": dict(
         category="model_checking",
-        text=("Resources.tla (one WAL descriptor, one mapping per live table, flush +1, compaction -k+1, Close releases all and joins both "
-              "goroutines) is model-checked; real sessions with hundreds of flush / compaction / open / close cycles (GC off) are observed at "
-              "quiescent points through /proc/self/fd, /proc/self/maps and the goroutine dump, library readers/writers/WAL through complete and "
-              "abandoned scans; TLC judges ObsOk (descriptors + mappings <= live tables + 4 while open; none and no module goroutine after Close)."),
+        text=("Resources.tla (one WAL descriptor, one mapping per live table, flush +1, compaction -k+1, background compactor with separate merge "
+              "and reflect steps, Close in four steps: lock, flusher joined, compactor joined, release) is model-checked, with a negative "
+              "configuration for 'release before the compactor is joined'; real sessions with hundreds of flush / compaction / open / close "
+              "cycles (GC off), including Close calls gated to overlap a compaction between merge and reflect, drive the specification's "
+              "actions through their hook events (ResTrace.tla: a step that is not enabled is rejected) and are observed at quiescent points "
+              "through /proc/self/fd, /proc/self/maps and the goroutine dump: table count, mappings and descriptors equal the model's (manual "
+              "compaction) or are bounded by live tables + 4 (background compaction); none and no module goroutine after Close.  Library "
+              "readers / writers / WAL through complete and abandoned scans."),
         design_ref="§5 C19",
         note="observations only outside a running compaction cycle (its private readers are bounded by the inputs); Linux /proc",
         technique="TLA+ spec + TLC exhaustive check; observations of real executions trace-validated by TLC",
